@@ -191,7 +191,7 @@ def run(ck, tier, rng):
                      {"theorem_or_correspondence": "translator tx_c01 (model regeneration)"}, concrete=False)
     ck.build = coq_build("C01", extra_targets=["gen/GenC01.vo"])
     meta = json.load(open(os.path.join(COQ, "gen", "c01_meta.json")))
-    n_pk = 1500 if tier == "quick" else 30000
+    n_pk = 4000 if tier == "quick" else 40000
     decks = corpus()
     if tier == "quick":
         decks = decks[::max(1, len(decks) // 8)][:8]
@@ -260,7 +260,7 @@ def run(ck, tier, rng):
                                  diffs, first[0], first[1], first[2]),
                              dict(rec_for(first[3], first[1]), theorem_or_correspondence="correspondence Opc.v ~ opc/package.py + opc/serialized.py (theorems C01_* are about the model only)"),
                              concrete=False)
-        ck.broken_build(oracle_found_concrete=len(ck.violations) + len(ck.known_hits) > 0 and concrete_before > 0)
+        ck.broken_build(oracle_found_concrete=any(v["concrete"] for v in ck.violations))
     finally:
         shutil.rmtree(tmp, ignore_errors=True)
     return ck.finish(
